@@ -41,7 +41,7 @@ def run(tier, wd):
     rep.cov["unclaimed"] = unclaimed
     rep.cov["distinct_nontrivial"] = nontriv
     rep.cov["exhaustive"] = True
-    rep.cov["rule"] = ("4 command trees (one with a version flag) x 3 policies x every argument vector over %d tokens (sub command names, valid and invalid "
+    rep.cov["rule"] = ("5 command trees (one with a version flag) x 3 policies x every argument vector over %d tokens (sub command names, valid and invalid "
                        "arguments, --, -h, --help, the version flag) up to length %d: CmdTree.tla scans for the help token up to the first -- at every level and "
                        "says whose long help is shown (or that the token is data behind a -- of the same level, and then what runs or rejects); non-trivial = vectors "
                        "containing a help token or asking for the version; unclaimed = help below an ancestor whose own arguments contain --, version together "
